@@ -78,7 +78,7 @@ func (s *SortedInts) Add(x ...int) {
 	}
 	//Check for duplicates
 	for i := 0; i < len(x)-1; i++ {
-		if x[i] == x[i+1] {
+		if x[i] == x[i+1] && indices[i+1] != -1 {
 			indices[i+1] = -1
 			numberAlreadySeen++
 		}
